@@ -230,6 +230,53 @@ type Gen struct {
 	Big   bool // allow 64 KiB-scale fields
 	depth int
 	sigOK bool // the struct being generated is the only member of its (nocopy) parent: it may carry a signature
+	// systematic values (on top of the random ones):
+	Full      bool // no optional field is left nil, sequences and maps have at least one element
+	Alone     int  // > 0: at depth 0 only field Alone-1 is set (Full-style), every other field keeps its zero value
+	WireShape int  // > 0: every wire field gets this buffer pattern (empty / nil buffers in each position)
+}
+
+// wireShapes: buffer patterns of a Wire value with empty / nil buffers only, first, in the middle, last.
+// What a parser returns for a zero-length element is Wire{[]byte{}} (BufferReader) or Wire{} (WireReader).
+const nWireShapes = 7
+
+func (g *Gen) wireShape(k int) enc.Wire {
+	a, b := g.bytes(1+g.R.Intn(5)), g.bytes(1+g.R.Intn(5))
+	switch k {
+	case 1:
+		return enc.Wire{[]byte{}}
+	case 2:
+		return enc.Wire{nil}
+	case 3:
+		return enc.Wire{}
+	case 4:
+		return enc.Wire{[]byte{}, a}
+	case 5:
+		return enc.Wire{a, []byte{}, b}
+	case 6:
+		return enc.Wire{a, []byte{}}
+	default:
+		return enc.Wire{nil, a, nil, nil, b, nil}
+	}
+}
+
+// HasWire: the model has a wire field, directly or in a nested struct.
+func (e *Entry) HasWire(depth int) bool {
+	if depth > 6 {
+		return false
+	}
+	for i := range e.M.Fields {
+		f := &e.M.Fields[i]
+		if f.Kind == "wire" {
+			return true
+		}
+		if f.Kind == "struct" {
+			if m := e.modelByName(f.Struct); m != nil && m.HasWire(depth+1) {
+				return true
+			}
+		}
+	}
+	return false
 }
 
 var natVals = []uint64{0, 1, 2, 100, 252, 253, 254, 255, 256, 65535, 65536, 1<<32 - 1, 1 << 32, 1<<63 - 1, 1 << 63, 1<<64 - 1}
@@ -313,6 +360,9 @@ func (e *Entry) genKind(g *Gen, f *Field, t reflect.Type, elem bool) reflect.Val
 		}
 	}
 	nilp := !elem && g.R.Intn(4) == 0
+	if g.Full {
+		nilp = false
+	}
 	switch f.Kind {
 	case "natural", "fixedUint":
 		if t.Kind() == reflect.Ptr && nilp {
@@ -353,7 +403,14 @@ func (e *Entry) genKind(g *Gen, f *Field, t reflect.Type, elem bool) reflect.Val
 		if nilp {
 			return v
 		}
+		if g.WireShape > 0 {
+			v.Set(reflect.ValueOf(g.wireShape(g.WireShape)))
+			return v
+		}
 		nseg := g.R.Intn(4)
+		if g.Full && nseg == 0 {
+			nseg = 1
+		}
 		w := make(enc.Wire, nseg)
 		for i := range w {
 			w[i] = g.bytes(g.length())
@@ -362,7 +419,7 @@ func (e *Entry) genKind(g *Gen, f *Field, t reflect.Type, elem bool) reflect.Val
 	case "signature":
 		// the signature length is an input of the encoder (X_estLen), which only the caller of the top-level
 		// encoder can provide: nested models are generated unsigned
-		if (g.depth > 0 && !(g.depth == 1 && g.sigOK)) || g.R.Intn(3) == 0 {
+		if (g.depth > 0 && !(g.depth == 1 && g.sigOK)) || (!g.Full && g.R.Intn(3) == 0) {
 			return v
 		}
 		l := []int{1, 2, 32, 64, 72, 100, 250, 252, 253, 256, 300}[g.R.Intn(11)]
@@ -380,7 +437,7 @@ func (e *Entry) genKind(g *Gen, f *Field, t reflect.Type, elem bool) reflect.Val
 	case "bool":
 		v.SetBool(g.R.Intn(2) == 0)
 	case "struct":
-		if !elem && (nilp || g.depth > 6) {
+		if !elem && (nilp || g.depth > 6 || (g.Full && g.depth > 3)) {
 			return v
 		}
 		g.depth++
@@ -390,6 +447,9 @@ func (e *Entry) genKind(g *Gen, f *Field, t reflect.Type, elem bool) reflect.Val
 		n := g.R.Intn(4)
 		if g.depth > 4 {
 			n = g.R.Intn(2)
+		}
+		if g.Full && n == 0 {
+			n = 1
 		}
 		if n == 0 && g.R.Intn(2) == 0 {
 			return v // nil slice
@@ -401,6 +461,9 @@ func (e *Entry) genKind(g *Gen, f *Field, t reflect.Type, elem bool) reflect.Val
 		v.Set(s)
 	case "map":
 		n := g.R.Intn(4)
+		if g.Full && n == 0 {
+			n = 1
+		}
 		if n == 0 && g.R.Intn(2) == 0 {
 			return v
 		}
@@ -428,12 +491,25 @@ func (e *Entry) GenStruct(g *Gen) reflect.Value {
 		}
 	}
 	only := -1
-	if len(nocopyMembers) > 0 && g.R.Intn(2) == 0 {
+	if len(nocopyMembers) > 0 && g.R.Intn(2) == 0 && !g.Full {
 		only = nocopyMembers[g.R.Intn(len(nocopyMembers))]
+	}
+	alone := -1
+	if g.depth == 0 && g.Alone > 0 {
+		alone = g.Alone - 1
+		only = -1
+		for _, m := range nocopyMembers {
+			if m == alone {
+				only = alone // the single member of a Packet: may be signed
+			}
+		}
 	}
 	for i := range e.M.Fields {
 		f := &e.M.Fields[i]
 		if !isData(f.Kind) {
+			continue
+		}
+		if alone >= 0 && i != alone {
 			continue
 		}
 		fv := s.FieldByName(f.Name)
